@@ -12,7 +12,7 @@
       codec nms rate=<16|24|32> [normF=0|1 normD=0|1 variant=sse2|lrint] [rule=old]
       w <ty> <i|f> <count> <hex items>      -> ret=<n> err=0
       close                                 -> data=<hex>     the bytes nms_adpcm_close leaves in the data region
-      load <hex>                            -> frames=<n>     read handle over this data region
+      load <hex> [tail=<hex>]               -> frames=<n>     read handle over this data region; tail = the bytes of the file behind it
       r <ty> <i|f> <count>                  -> ret=<n> err=<0|E> data=<hex of the cells of the caller's buffer that were written (a prefix of the request)>
       seek <offset> <whence>                -> ret=-1 err=E   (sf.seekable is false: every sf_seek is refused)
 -/
@@ -51,8 +51,13 @@ def runLine (ds : DS) (line : String) : DS × Option String :=
     let bytes := (closeW ds.rate ds.ws).bytes
     ({ ds with ws := openW ds.rate }, some ("data=" ++ hexBytes bytes))
   | "load" :: rest =>
-    let data := parseHexBytes (rest.headD "")
-    let h := if ds.old then openROld ds.rate data else openR ds.rate data
+    let (hex, opts) : String × List String :=
+      match rest with
+      | h :: o => if (h.splitOn "=").length > 1 then ("", rest) else (h, o)
+      | [] => ("", [])
+    let data := parseHexBytes hex
+    let tail := parseHexBytes ((kvGet opts "tail").getD "")
+    let h := openRIn ds.rate ds.old data.length (data ++ tail)
     ({ ds with rh := some h, sticky := false }, some s!"frames={h.frames}")
   | ["r", tyS, _, nS] =>
     match tyOf tyS, ds.rh with
